@@ -167,6 +167,18 @@ EXTRA_NEGATIVE = [
      "extra whitespace in LilyPond output"),
     ("neg-measure-refactor", "C02", "mingus/core/intervals.py", "    res = notes.note_to_int(note2) - notes.note_to_int(note1)\n    if res < 0:\n        return 12 - res * -1\n    else:\n        return res",
      "    return (notes.note_to_int(note2) - notes.note_to_int(note1)) % 12", "measure refactored"),
+    ("neg-note-to-int-sum", "C01", "mingus/core/notes.py", "    # Check for '#' and 'b' postfixes\n    for post in note[1:]:\n        if post == \"b\":\n            val -= 1\n        elif post == \"#\":\n            val += 1\n    return val % 12",
+     "    return (val + note.count(\"#\", 1) - note.count(\"b\", 1)) % 12", "note_to_int counts accidentals instead of looping"),
+    ("neg-keys-no-cache", "C04", "mingus/core/keys.py", "    if key in _key_cache:\n        return list(_key_cache[key])\n", "", "key notes recomputed on every call (no memo)"),
+    ("neg-xml-compact", "C19", "mingus/extra/musicxml.py", "def from_Composition(comp):\n    return _composition2musicxml(comp).toprettyxml()", "def from_Composition(comp):\n    return _composition2musicxml(comp).toxml()",
+     "MusicXML written without pretty-printing"),
+    ("neg-seq-stop-order", "C18", "mingus/midi/sequencer.py", "        for note in nc:\n            if not self.stop_Note(note, channel):\n                return False\n        return True", "        for note in reversed(list(nc)):\n            if not self.stop_Note(note, channel):\n                return False\n        return True",
+     "notes of a container are stopped in reverse order"),
+    ("neg-bar-beat-recompute", "C13", "mingus/containers/bar.py", "        self.current_beat -= 1.0 / self.bar[-1][1]\n        self.bar = self.bar[:-1]", "        self.bar = self.bar[:-1]\n        self.current_beat = sum([1.0 / e[1] for e in self.bar], 0.0)",
+     "remove_last_entry recomputes the beat from the remaining entries"),
+    ("neg-midi-delta-cache", "C16", "mingus/midi/midi_track.py", "        if isinstance(delta_time, int):\n            delta_time = self.int_to_varbyte(delta_time)", "        if isinstance(delta_time, int):\n            delta_time = b\"\\x00\" if delta_time == 0 else self.int_to_varbyte(delta_time)",
+     "zero delta times short-circuited"),
+    ("neg-tunings-frets", "C20", "mingus/extra/tunings.py", "            diff = base.measure(note)\n            if 0 <= diff <= maxfret:", "            diff = int(note) - int(base)\n            if 0 <= diff <= maxfret:", "fret distance by integer subtraction"),
     ("neg-nc-sort-key", "C12", "mingus/containers/note_container.py", "            self.notes.append(note)\n            self.notes.sort()", "            self.notes.append(note)\n            self.notes.sort(key=int)",
      "sort by explicit key"),
 ]
